@@ -412,6 +412,32 @@ impl<'a> Interp<'a> {
                 RS { v, weak, ordered }
             }
             UnOp::AddTs { .. } | UnOp::DropTs => RS { v, weak, ordered },
+            UnOp::Win(WinKind::Count { n, s, exact }, agg) | UnOp::WinAll(WinKind::Count { n, s, exact }, agg) if ordered && !weak => {
+                // on a path where every key's arrival order is determined the groups are too
+                let all = matches!(op, UnOp::WinAll(..));
+                let mut per_key: BTreeMap<u16, Vec<(u64, i64)>> = BTreeMap::new();
+                for e in &v {
+                    per_key.entry(if all { 0 } else { e.key }).or_default().push((e.id, e.v));
+                }
+                let mut outv = vec![];
+                for (k, seq) in per_key {
+                    let mut j = 0usize;
+                    while j * s + n <= seq.len() {
+                        let (id, val) = crate::win::win_value(*agg, k, &seq[j * s..j * s + n]);
+                        outv.push(E { id, key: k, v: val, ts: 0, pad: vec![] });
+                        j += 1;
+                    }
+                    if !exact && j * s < seq.len() {
+                        let (id, val) = crate::win::win_value(*agg, k, &seq[j * s..seq.len().min(j * s + n)]);
+                        outv.push(E { id, key: k, v: val, ts: 0, pad: vec![] });
+                    }
+                }
+                RS {
+                    v: outv,
+                    weak: false,
+                    ordered: false,
+                }
+            }
             UnOp::Win(..) | UnOp::WinAll(..) => RS {
                 v: vec![],
                 weak: true,
